@@ -95,7 +95,12 @@ def replay(case):
                     if np.max(np.abs(Pu @ Phi - Phi)) > 1e-7 * max(1.0, float(np.max(np.abs(Phi)))):
                         out.append(('%s:modes' % tag, 'standard DMD modes are not in the range of the left singular vectors'))
                         continue
-                nz = np.linalg.norm(Phi, axis=0)
+                # exact DMD modes Y V S^-1 w / lambda are defined for non-zero eigenvalues only (for lambda = 0 up to
+                # rounding they are rounding noise divided by lambda): those columns are not compared
+                sel = np.abs(lam) > 1e-6 * scale if name == 'exact' else np.ones(len(lam), dtype=bool)
+                if not np.any(sel):
+                    continue
+                R, nz = R[:, sel], np.linalg.norm(Phi, axis=0)[sel]
                 if np.min(nz) < 1e-12 or np.max(np.linalg.norm(R, axis=0) / nz) > 1e-6 * scale:
                     out.append(('%s:modes' % tag, 'modes do not satisfy the %s DMD eigen-equation (max residual %.3e)' % (
                         name, np.max(np.linalg.norm(R, axis=0) / np.maximum(nz, 1e-300)))))
